@@ -17,7 +17,7 @@ import glob
 import json
 import os
 
-from . import model, report
+from . import model, refmodels, report
 from .model import AnalysisError
 
 VERIF = report.VERIF
@@ -74,6 +74,7 @@ def run(prop: str, tier: str, mod, seed: int) -> dict:
             repo = model.Repo(model.REPO_ROOT, overrides=overrides, share=base_repo)
             ctx = report.Ctx(prop, tier, seed, repo)
             mod.run(ctx)
+            refmodels.check(ctx)
             failing = [o for o in ctx.obligations if not o["ok"] and not any(report.matches(e, o) for e in known)]
             err = None
         except AnalysisError as exc:
